@@ -28,6 +28,10 @@ def judge_fn(x, y, a, c, resp):
 
 
 def fn_leg(acc, srv, rng, n_cases):
+    from ..core import dropped_groups
+    if "fn_formulas" in dropped_groups():
+        acc.count("fn_leg_skipped_adapter_built_without_fn_formulas")
+        return
     batch = []
     for _ in range(n_cases):
         x, y, a, tag = swapgen.case(rng)
@@ -72,6 +76,9 @@ def run_shard(acc, prop, tier, seed, shard, nshards, **kw):
 
 
 def canary(acc, srv):
+    from ..core import dropped_groups
+    if "fn_formulas" in dropped_groups():
+        return
     fired = 0
     tests = [(10 ** 6, 10 ** 6, 1000, 0), (123456789, 987654321, 55555, 3 * 10 ** 15)]
     for x, y, a, c in tests:
